@@ -111,7 +111,7 @@ def exc_env(fi: FuncInfo, present: bool) -> dict:
     return env
 
 
-def pruned_reach(cfg: CFG, start: Node, env: dict, *, avoid=None) -> set[int]:
+def pruned_reach(cfg: CFG, start: Node, env: dict, *, avoid=None, defs=None) -> set[int]:
     """Forward reachability where branch nodes contradicting `env` are not entered."""
 
     def blocked(n: Node) -> bool:
@@ -119,7 +119,7 @@ def pruned_reach(cfg: CFG, start: Node, env: dict, *, avoid=None) -> set[int]:
             return True
         if n.kind == "branch":
             try:
-                v = eval_test(n.test.expr, env)
+                v = eval_test(n.test.expr, env, defs)
             except Unknown:
                 return False
             return bool(v) != bool(n.polarity)
@@ -163,3 +163,57 @@ def mentions_name(expr: ast.AST, names) -> bool:
 
 def attr_names(expr: ast.AST) -> set[str]:
     return {x.attr for x in ast.walk(expr) if isinstance(x, ast.Attribute)}
+
+
+def single_def_resolver(fn: ast.AST):
+    """defs-callback for eval_test: the single `name = expr` definition of a local."""
+    from ..dataflow import all_def_values
+
+    def defs(name: str):
+        vals = all_def_values(fn, name)
+        if len(vals) == 1 and vals[0] is not None:
+            return vals[0]
+        return None
+
+    return defs
+
+
+def eq_covers_slots(prog: Program, res, rule: str, ci: ClassInfo, *, exceptions: dict | None = None) -> None:
+    """generic rule: __eq__ of a slotted class reads every slot (directly, through a loop over
+    __slots__/to_dict, or through a property that reads it)."""
+    exceptions = exceptions or {}
+    eq = ci.methods.get("__eq__")
+    if eq is None:
+        eq = prog.find_method(ci, "__eq__")
+    if eq is None:
+        raise AnalysisError(f"{rule}: {ci.name} has no __eq__")
+    slots = [s for s in (ci.slots or []) if not s.startswith("__")]
+    if not slots:
+        slots = [a for a in ci.class_ann if not a.startswith("_")]
+    if not slots:
+        raise AnalysisError(f"{rule}: cannot determine the data attributes of {ci.name}")
+    res.touch(eq)
+    read = set()
+    generic = False
+    for x in walk_no_nested(eq.node):
+        if isinstance(x, ast.Attribute):
+            read.add(x.attr)
+            m = prog.find_method(ci, x.attr)
+            if m is not None and (m.is_property or isinstance(getattr(x, "ctx", None), ast.Load)):
+                for y in walk_no_nested(m.node):
+                    if isinstance(y, ast.Attribute) and isinstance(y.value, ast.Name) and y.value.id == "self":
+                        read.add(y.attr)
+                        m2 = prog.find_method(ci, y.attr)
+                        if m2 is not None:
+                            for z in walk_no_nested(m2.node):
+                                if isinstance(z, ast.Attribute) and isinstance(z.value, ast.Name) and z.value.id == "self":
+                                    read.add(z.attr)
+                    if isinstance(y, ast.Attribute) and y.attr == "__slots__":
+                        generic = True
+        if isinstance(x, ast.Attribute) and x.attr == "__slots__":
+            generic = True
+    missing = [s for s in slots if s not in read and s not in exceptions and not generic]
+    if missing:
+        res.violation(rule, eq, eq.node, f"{ci.name}.__eq__ does not compare attribute(s) {missing}: objects differing only there compare equal", key_extra=f"eq-misses-{'-'.join(missing)}")
+    else:
+        res.ok(rule, res.site(eq), f"__eq__ reads all of {slots}" + (f" (frozen exceptions: {sorted(exceptions)})" if exceptions else ""))
